@@ -35,6 +35,13 @@ func nopanicConfigs(r *rng, n int) []proxyCfg {
 		out = append(out, proxyCfg{ReverseProxy: true, RealClientIPHeader: h, TrustedIPs: []string{"10.0.0.0/8", "::ffff:10.0.0.0/104", "2001:db8::/32"}, InjectRequest: defaultInject(),
 			CookieDomains: []string{".example.com"}, Whitelist: []string{".example.com"}})
 	}
+	// force-https redirect in front of everything, with and without trusted forwarding headers
+	for _, rp := range []bool{false, true} {
+		out = append(out, proxyCfg{ForceHTTPS: true, ReverseProxy: rp, InjectRequest: defaultInject(), Htpasswd: map[string]string{"bob": "pw"}, SkipAuthRoutes: []string{"^/skip/"}})
+	}
+	// sessions without an e-mail address (htpasswd) / with odd e-mail claims against every auth-only constraint
+	out = append(out, proxyCfg{Htpasswd: map[string]string{"bob": "pw"}, HtpasswdGroups: []string{"dev"}, SkipJwtBearer: true, EmailClaim: "sub", InjectRequest: defaultInject(), InjectResponse: defaultInject()})
+	out = append(out, proxyCfg{Htpasswd: map[string]string{"bob": "pw"}, SkipJwtBearer: true, EmailDomains: []string{"example.com", ".example.org"}, InjectRequest: defaultInject()})
 	for len(out) < n {
 		c := proxyCfg{Redis: r.bool(), CSRFPerRequest: r.bool(), EncodeState: r.bool(), SkipProviderButton: r.intn(3) == 0, ForceJSON: r.intn(4) == 0,
 			SkipJwtBearer: r.bool(), PKCE: r.pick([]string{"", "S256", "plain"}), SkipNonce: r.intn(4) == 0, CookieSameSite: r.pick([]string{"", "lax", "strict", "none"}),
@@ -87,7 +94,8 @@ var weirdAuth = []string{"", "Bearer", "Bearer ", "Bearer x", "Bearer a b", "Bas
 var weirdTargets = []string{"/", "//", "/%2e%2e/x", "/a/../b", "/oauth2", "/oauth2/", "/oauth2//auth", "/oauth2/auth/", "/oauth2/callback", "/oauth2/callback?state=&code=", "/oauth2/callback?state=:&code=x",
 	"/oauth2/callback?state=abcdefg:/&code=x", "/oauth2/callback?state=abcdefgh:/&code=x", "/oauth2/callback?error=access_denied", "/oauth2/callback?state=%ff%fe:x&code=%00",
 	"/oauth2/start?rd=%2F%2Fevil", "/oauth2/start?rd=" + strings.Repeat("a", 9000), "/oauth2/sign_in?rd=/x", "/oauth2/sign_out?rd=%5Cevil", "/oauth2/userinfo", "/oauth2/static/../../etc/passwd",
-	"/oauth2/static/", "/ping", "/ready", "/robots.txt", "/x?a=1;b=2", "/x?%zz", "/rw/a;b?keep=1", "/rw/%25zz", "/skip/x", "/" + strings.Repeat("a/", 2000), "/x#frag", "/\x7f"}
+	"/oauth2/static/", "/oauth2/auth?allowed_email_domains=example.com", "/oauth2/auth?allowed_email_domains=*.example.com,example.org&allowed_groups=dev&allowed_emails=a@b",
+	"/oauth2/auth?allowed_emails=", "/oauth2/auth?allowed_email_domains=,", "/oauth2/auth?allowed_groups=%ff", "/ping", "/ready", "/robots.txt", "/x?a=1;b=2", "/x?%zz", "/rw/a;b?keep=1", "/rw/%25zz", "/skip/x", "/" + strings.Repeat("a/", 2000), "/x#frag", "/\x7f"}
 var weirdFwd = []string{"", "1.2.3.4", "10.1.2.3", "10.1.2.3, 8.8.8.8", ",", " , ", "[::1", "[::1]:80", "::ffff:10.1.2.3", "1.2.3.4:99999", "a,b", "10.1.2.3:", strings.Repeat("1", 5000), "2001:db8::1", "::"}
 
 func init() {
@@ -123,7 +131,26 @@ func init() {
 			bearer := "Bearer " + e.idp.idToken(u, "")
 			basic := "Basic " + base64.StdEncoding.EncodeToString([]byte("bob:pw"))
 			old := e.issueSessionCookie(e.sessionFor(u, 3*time.Hour))
+			// a cookie session created by the htpasswd sign-in form (no e-mail address)
+			formCookie := ""
+			if cfg.Htpasswd != nil {
+				fr := e.do(reqSpec{Target: "/oauth2/sign_in", Method: "POST", Body: "username=bob&password=pw&rd=/x", Header: http.Header{"Content-Type": {"application/x-www-form-urlencoded"}}})
+				var parts []string
+				for _, ck := range fr.Cookies {
+					if ck.MaxAge >= 0 && ck.Value != "" {
+						parts = append(parts, ck.Name+"="+ck.Value)
+					}
+				}
+				formCookie = strings.Join(parts, "; ")
+				if formCookie != "" {
+					c.count("np:form-session")
+				}
+			}
 			seeds := []reqSpec{
+				{Target: "/oauth2/auth?allowed_email_domains=example.com", Header: http.Header{"Authorization": {basic}}}, {Target: "/oauth2/auth?allowed_emails=bob&allowed_groups=dev", Header: http.Header{"Authorization": {basic}}},
+				{Target: "/oauth2/auth?allowed_email_domains=example.com,*.example.org", Cookie: formCookie}, {Target: "/app/x", Cookie: formCookie}, {Target: "/oauth2/userinfo", Cookie: formCookie},
+				{Target: "/oauth2/auth?allowed_email_domains=example.com", Cookie: sessionCookie}, {Target: "/oauth2/auth?allowed_email_domains=example.com", Header: http.Header{"Authorization": {bearer}}},
+				{Target: "/app/x", Header: http.Header{"X-Forwarded-Uri": {"/original/%zz"}, "X-Forwarded-Proto": {"http"}}}, {Target: "/app/x", Header: http.Header{"X-Forwarded-Uri": {"/a\x7fb"}, "X-Forwarded-Host": {"a b"}}},
 				{Target: "/app/x", Cookie: sessionCookie}, {Target: "/app/x", Cookie: old}, {Target: "/oauth2/auth?allowed_groups=dev", Cookie: sessionCookie},
 				{Target: "/oauth2/userinfo", Cookie: sessionCookie}, {Target: cbTarget, Cookie: csrfCookie}, {Target: "/app/x", Header: http.Header{"Authorization": {bearer}}},
 				{Target: "/app/x", Header: http.Header{"Authorization": {basic}}}, {Target: "/oauth2/auth", Header: http.Header{"Authorization": {basic}}},
@@ -166,7 +193,7 @@ func init() {
 						rs.Header.Set(r.pick([]string{"X-Forwarded-For", "X-Real-Ip", "X-Proxyuser-Ip", "X-Envoy-External-Address", "Cf-Connecting-Ip"}), r.pick(weirdFwd))
 					case 6:
 						rs.Header.Set(r.pick([]string{"X-Forwarded-Host", "X-Forwarded-Proto", "X-Forwarded-Uri", "X-Auth-Request-Redirect", "Accept", "User-Agent", "X-Request-Id"}),
-							r.pick([]string{"", "evil.com", "https", "/x", "//evil", "application/json", "a b", "\xff", strings.Repeat("x", 9000), "javascript:alert(1)", "/oauth2/sign_in"}))
+							r.pick([]string{"", "evil.com", "https", "http", "/x", "//evil", "application/json", "a b", "\xff", "/%zz", "/a\x7fb", "http://[::1", ":", "%", "/x?%zz", "h\x00st", strings.Repeat("x", 9000), "javascript:alert(1)", "/oauth2/sign_in"}))
 					case 7:
 						rs.Method = r.pick([]string{"GET", "POST", "PUT", "OPTIONS", "HEAD", "DELETE", "PATCH", "CONNECT", "get"})
 						if rs.Method == "POST" && rs.Body == "" {
@@ -197,6 +224,6 @@ func init() {
 			}
 			e.close()
 		}
-		c.close([]string{"np:mutant", "np:seed", "np:4xx", "np:served", "cfg:ok"})
+		c.close([]string{"np:mutant", "np:seed", "np:4xx", "np:served", "cfg:ok", "np:form-session"})
 	})
 }
